@@ -16,6 +16,8 @@ def dispatch (j : Json) : Json :=
   | "C13" => Driver.C13.handle j
   | "C10" => Driver.C10.handle j
   | "C03" => Driver.C03.handle j
+  | "C01" => Driver.C03.handle j
+  | "C02" => Driver.C03.handle j
   | p => Json.mkObj [("bad-op", Json.str p)]
 
 partial def loop (hin hout : IO.FS.Stream) : IO Unit := do
